@@ -11,10 +11,17 @@ import SigpyVerif.Lemmas.C13
   Prox maps are abstract, given by their variational characterisation `IsProx`.
 
   Proved in full:  ista_descent, ista_step_ineq, ista_rate, t_rule_ok, fista_lyapunov, fista_rate,
-  pdhg_fixed_point_iff_saddle, pdhg_fejer (+ pdhg_fejer_monotone under tau*sigma*||A||^2 <= 1),
-  pdhg_accel_steps_primal / _dual / pdhg_accel_run_primal.
-  NOT proved (validated only by the search oracle on the real code): convergence of the PDHG iterates
-  to the minimiser (with or without acceleration), Fejér monotonicity for array-valued (diagonal) steps.
+  pdhg_fixed_point_iff_saddle (+ _diag), pdhg_fejer (+ pdhg_fejer_monotone under tau*sigma*||A||^2 <= 1),
+  pdhg_fejer_diag / pdhg_fejer_diag_monotone / pdhg_fejer_run_diag (ARRAY-valued positive steps: a step is the
+  operator it acts as, `StepOp`; prox in the T^-1-weighted inner product, `IsProxW`; step condition = the metric
+  is PSD, `MetricPSD`; `metricPSD_scalar` recovers tau*sigma*||A||^2 <= 1, `metricPSD_pock_chambolle` proves it for
+  the diagonal-preconditioning rule the harness instances use), pdhg_accel_steps_primal / _dual /
+  pdhg_accel_run_primal.
+  Proved in part:  pdhg_residual_rate_partial (non-accelerated, scalar or array steps: the Fejér distances decrease,
+  the squared update sizes are summable, min_{k<N} R_k <= D_0/N) — asymptotic regularity at rate 1/N.
+  NOT proved (validated only by the search oracle on the real code): convergence of the PDHG iterates to the
+  minimiser itself (Opial's compactness step on top of pdhg_residual_rate_partial), and the O(1/N^2) rate of
+  the accelerated variants.
   Only by correspondence: that the real classes compute what `gmStep`/`pdStep` compute (statement
   order, branch conditions, in-place updates of the caller's arrays, floating point).
 -/
@@ -388,6 +395,244 @@ theorem pdhg_fejer_monotone (A : E →ₗ[ℝ] F) (AH : F → E) (hadj : ∀ x u
   linarith
 end fejer
 
+/-! ## array-valued (diagonal) steps
+
+`tau` / `sigma` may be arrays: `util.axpy(self.x, -self.tau, ·)` multiplies elementwise and the prox is
+called with the array.  The SAME `pdStep` is instantiated at `P = StepOp E`, `D = StepOp F` (a step is
+the operator it acts as, `Lemmas/C13.lean`); `StepOp.Pos` says "every entry is positive"; the prox is
+characterised in the `T⁻¹`-weighted inner product (`IsProxW`).  A scalar step is `StepOp.scalar τ`. -/
+section diag
+variable (g : E → ℝ) (fc : F → ℝ) (proxg : StepOp E → E → E) (proxfc : StepOp F → F → F)
+
+/-- `prox` computes the proximal map of `g` in the metric of every positive (array) step -/
+def ProxOfW {E : Type} [NormedAddCommGroup E] [InnerProductSpace ℝ E] (g : E → ℝ) (prox : StepOp E → E → E) : Prop :=
+  ∀ T v, T.Pos → IsProxW g T v (prox T v)
+
+/-- the metric of the steps is positive semidefinite: `2|⟨A x, u⟩| ≤ ⟨T⁻¹x, x⟩ + ⟨Σ⁻¹u, u⟩` for all `x, u`
+    (equivalently `‖Σ^{1/2} A T^{1/2}‖ ≤ 1`; for scalar steps `τσ‖A‖² ≤ 1`, see `metricPSD_scalar`) -/
+def MetricPSD (A : E → F) (T : StepOp E) (Sg : StepOp F) : Prop :=
+  ∀ x u, 2 * |⟪A x, u⟫| ≤ ⟪T.inv x, x⟫ + ⟪Sg.inv u, u⟫
+
+theorem MetricPSD.coupled_nonneg {A : E → F} {T : StepOp E} {Sg : StepOp F} (h : MetricPSD A T Sg) (a : E) (b : F) :
+    0 ≤ coupledW A T Sg a b := by
+  have := h a b
+  have h2 := le_abs_self ⟪A a, b⟫
+  unfold coupledW
+  linarith
+
+/-- for scalar steps `MetricPSD` is the familiar condition `τ σ ‖A‖² ≤ 1` -/
+theorem metricPSD_scalar (A : E → F) (τ σ Lop : ℝ) (hτ : 0 < τ) (hσ : 0 < σ) (hstep : τ * σ * Lop ^ 2 ≤ 1)
+    (hA : ∀ x, ‖A x‖ ≤ Lop * ‖x‖) : MetricPSD A (StepOp.scalar τ) (StepOp.scalar σ) := by
+  intro x u
+  have e1 : ⟪(StepOp.scalar τ : StepOp E).inv x, x⟫ = ‖x‖ ^ 2 / τ := by
+    simp only [StepOp.scalar, LinearMap.smul_apply, LinearMap.id_apply, real_inner_smul_left,
+      real_inner_self_eq_norm_sq]; ring
+  have e2 : ⟪(StepOp.scalar σ : StepOp F).inv u, u⟫ = ‖u‖ ^ 2 / σ := by
+    simp only [StepOp.scalar, LinearMap.smul_apply, LinearMap.id_apply, real_inner_smul_left,
+      real_inner_self_eq_norm_sq]; ring
+  rw [e1, e2]
+  have p1 := metric_psd τ σ Lop hτ hσ hstep x u (A x) (hA x)
+  have p2 := metric_psd τ σ Lop hτ hσ hstep x (-u) (A x) (hA x)
+  rw [inner_neg_right, norm_neg] at p2
+  rcases abs_cases ⟪A x, u⟫ with ⟨h, _⟩ | ⟨h, _⟩ <;> rw [h] <;> linarith
+
+theorem pdStepW_u (A : E → F) (AH : F → E) (γp γd θ0 : ℝ) (s : PDState ℝ E F (StepOp E) (StepOp F)) :
+    (pdStep Real.sqrt A AH proxfc proxg γp γd θ0 s).u = proxfc s.sigma (s.u + s.sigma.op (A s.x_ext)) := rfl
+
+theorem pdStepW_x (A : E → F) (AH : F → E) (γp γd θ0 : ℝ) (s : PDState ℝ E F (StepOp E) (StepOp F)) :
+    (pdStep Real.sqrt A AH proxfc proxg γp γd θ0 s).x
+      = proxg s.tau (s.x + s.tau.op (-(AH (pdStep Real.sqrt A AH proxfc proxg γp γd θ0 s).u))) := by
+  show proxg s.tau (s.x + (-s.tau) • _) = _
+  rw [StepOp.neg_act, map_neg]; rfl
+
+theorem pdStepW_x_ext (A : E → F) (AH : F → E) (γp γd θ0 : ℝ) (s : PDState ℝ E F (StepOp E) (StepOp F)) :
+    (pdStep Real.sqrt A AH proxfc proxg γp γd θ0 s).x_ext
+      = (pdStep Real.sqrt A AH proxfc proxg γp γd θ0 s).x
+        + (pdRescale Real.sqrt γp γd θ0 s.tau s.sigma s.tau_min s.sigma_min).theta
+          • ((pdStep Real.sqrt A AH proxfc proxg γp γd θ0 s).x - s.x) := rfl
+
+/-- `pdhg_fixed_point_iff_saddle_diag` — array-valued positive steps, any acceleration setting: a state with
+    `x_ext = x` is left unchanged (in `x`, `u`, `x_ext`) by `update()` iff `(x, u)` is a saddle point. -/
+theorem pdhg_fixed_point_iff_saddle_diag (A : E → F) (AH : F → E) (hg : ProxOfW g proxg) (hfc : ProxOfW fc proxfc)
+    (γp γd θ0 : ℝ) (s : PDState ℝ E F (StepOp E) (StepOp F)) (hτ : s.tau.Pos) (hσ : s.sigma.Pos)
+    (hext : s.x_ext = s.x) :
+    ((pdStep Real.sqrt A AH proxfc proxg γp γd θ0 s).x = s.x ∧
+      (pdStep Real.sqrt A AH proxfc proxg γp γd θ0 s).u = s.u ∧
+      (pdStep Real.sqrt A AH proxfc proxg γp γd θ0 s).x_ext = s.x_ext)
+      ↔ IsSaddle g fc A AH s.x s.u := by
+  have hU := hfc s.sigma (s.u + s.sigma.op (A s.x_ext)) hσ
+  rw [← pdStepW_u proxg proxfc A AH γp γd θ0 s] at hU
+  have hX := hg s.tau (s.x + s.tau.op (-(AH (pdStep Real.sqrt A AH proxfc proxg γp γd θ0 s).u))) hτ
+  rw [← pdStepW_x proxg proxfc A AH γp γd θ0 s] at hX
+  constructor
+  · rintro ⟨hx, hu, _⟩
+    rw [hx, hu] at hX
+    rw [hu, hext] at hU
+    exact ⟨(isProxW_shift_iff g hτ _ _).mp hX, (isProxW_shift_iff fc hσ _ _).mp hU⟩
+  · rintro ⟨h1, h2⟩
+    have hu : (pdStep Real.sqrt A AH proxfc proxg γp γd θ0 s).u = s.u := by
+      have := (isProxW_shift_iff fc hσ s.u (A s.x)).mpr h2
+      rw [← hext] at this
+      exact isProxW_unique hσ hU this
+    have hx : (pdStep Real.sqrt A AH proxfc proxg γp γd θ0 s).x = s.x := by
+      have := (isProxW_shift_iff g hτ s.x (-(AH s.u))).mpr h1
+      rw [hu] at hX
+      exact isProxW_unique hτ hX this
+    refine ⟨hx, hu, ?_⟩
+    rw [pdStepW_x_ext, hx, hext]; simp
+
+theorem pdRescaleW_const (θ0 : ℝ) (τ : StepOp E) (σ : StepOp F) (tm sm : ℝ) :
+    (pdRescale Real.sqrt 0 0 θ0 τ σ tm sm : Rescale ℝ (StepOp E) (StepOp F)) = ⟨θ0, τ, σ, tm, sm⟩ := by
+  simp [pdRescale, Gen.C13.pdThetaElse]
+
+theorem pdStepW_const_steps (A : E → F) (AH : F → E) (θ0 : ℝ) (s : PDState ℝ E F (StepOp E) (StepOp F)) :
+    (pdStep Real.sqrt A AH proxfc proxg 0 0 θ0 s).tau = s.tau ∧
+    (pdStep Real.sqrt A AH proxfc proxg 0 0 θ0 s).sigma = s.sigma := by
+  constructor <;> simp [pdStep, pdRescaleW_const]
+
+/-- `pdhg_fejer_diag` — constant ARRAY-valued positive steps `T = diag(τ_i)`, `Σ = diag(σ_j)`, `θ = 1`: for two
+    consecutive updates `s → s₁ → s₂` and any saddle point `(x*, u*)`, with
+    `D(a,b) = ⟨T⁻¹a, a⟩ - 2⟨A a, b⟩ + ⟨Σ⁻¹b, b⟩`:
+    `D(x₁-x*, u₂-u*) + D(x₁-x, u₂-u₁) ≤ D(x-x*, u₁-u*)`. -/
+theorem pdhg_fejer_diag (A : E →ₗ[ℝ] F) (AH : F → E) (hadj : ∀ x u, ⟪A x, u⟫ = ⟪x, AH u⟫)
+    (hg : ProxOfW g proxg) (hfc : ProxOfW fc proxfc)
+    (s : PDState ℝ E F (StepOp E) (StepOp F)) (hτ : s.tau.Pos) (hσ : s.sigma.Pos) (xs : E) (us : F)
+    (hs : IsSaddle g fc A AH xs us) :
+    coupledW A s.tau s.sigma
+        ((pdStep Real.sqrt A AH proxfc proxg 0 0 1 s).x - xs)
+        ((pdStep Real.sqrt A AH proxfc proxg 0 0 1 (pdStep Real.sqrt A AH proxfc proxg 0 0 1 s)).u - us)
+      + coupledW A s.tau s.sigma
+        ((pdStep Real.sqrt A AH proxfc proxg 0 0 1 s).x - s.x)
+        ((pdStep Real.sqrt A AH proxfc proxg 0 0 1 (pdStep Real.sqrt A AH proxfc proxg 0 0 1 s)).u
+          - (pdStep Real.sqrt A AH proxfc proxg 0 0 1 s).u)
+      ≤ coupledW A s.tau s.sigma (s.x - xs) ((pdStep Real.sqrt A AH proxfc proxg 0 0 1 s).u - us) := by
+  set s1 := pdStep Real.sqrt A AH proxfc proxg 0 0 1 s with hs1
+  set s2 := pdStep Real.sqrt A AH proxfc proxg 0 0 1 s1 with hs2
+  have hc := pdStepW_const_steps proxg proxfc A AH 1 s
+  rw [← hs1] at hc
+  have hX := hg s.tau (s.x + s.tau.op (-(AH s1.u))) hτ
+  rw [← pdStepW_x proxg proxfc A AH 0 0 1 s, ← hs1] at hX
+  have hU := hfc s1.sigma (s1.u + s1.sigma.op (A s1.x_ext)) (by rw [hc.2]; exact hσ)
+  rw [← pdStepW_u proxg proxfc A AH 0 0 1 s1, ← hs2, hc.2] at hU
+  have hext : s1.x_ext = s1.x + (s1.x - s.x) := by
+    rw [hs1, pdStepW_x_ext, pdRescaleW_const]; simp
+  rw [hext] at hU
+  have p1 := hX xs
+  have p2 := hs.1 s1.x
+  have d1 := hU us
+  have d2 := hs.2 s2.u
+  have eP : s.tau.inv (s.x + s.tau.op (-(AH s1.u)) - s1.x) = s.tau.inv (s.x - s1.x) - AH s1.u := by
+    have : s.x + s.tau.op (-(AH s1.u)) - s1.x = (s.x - s1.x) + s.tau.op (-(AH s1.u)) := by abel
+    rw [this, map_add, hτ.left_inv]; abel
+  have eD : s.sigma.inv (s1.u + s.sigma.op (A (s1.x + (s1.x - s.x))) - s2.u)
+      = s.sigma.inv (s1.u - s2.u) + A (s1.x + (s1.x - s.x)) := by
+    have : s1.u + s.sigma.op (A (s1.x + (s1.x - s.x))) - s2.u
+        = (s1.u - s2.u) + s.sigma.op (A (s1.x + (s1.x - s.x))) := by abel
+    rw [this, map_add, hσ.left_inv]
+  rw [eP, inner_sub_left] at p1
+  rw [eD, inner_add_left] at d1
+  rw [inner_neg_left] at p2
+  apply fejer_coreW A AH hadj s.tau s.sigma hτ.symm hσ.symm s.x s1.x xs s1.u s2.u us
+  · linarith
+  · linarith
+
+/-- `pdhg_fejer_diag_monotone` — if moreover the metric of the steps is positive semidefinite
+    (`‖Σ^{1/2} A T^{1/2}‖ ≤ 1`), the coupled distance to every saddle point never increases. -/
+theorem pdhg_fejer_diag_monotone (A : E →ₗ[ℝ] F) (AH : F → E) (hadj : ∀ x u, ⟪A x, u⟫ = ⟪x, AH u⟫)
+    (hg : ProxOfW g proxg) (hfc : ProxOfW fc proxfc)
+    (s : PDState ℝ E F (StepOp E) (StepOp F)) (hτ : s.tau.Pos) (hσ : s.sigma.Pos)
+    (hM : MetricPSD A s.tau s.sigma) (xs : E) (us : F) (hs : IsSaddle g fc A AH xs us) :
+    coupledW A s.tau s.sigma
+        ((pdStep Real.sqrt A AH proxfc proxg 0 0 1 s).x - xs)
+        ((pdStep Real.sqrt A AH proxfc proxg 0 0 1 (pdStep Real.sqrt A AH proxfc proxg 0 0 1 s)).u - us)
+      ≤ coupledW A s.tau s.sigma (s.x - xs) ((pdStep Real.sqrt A AH proxfc proxg 0 0 1 s).u - us) := by
+  have h := pdhg_fejer_diag g fc proxg proxfc A AH hadj hg hfc s hτ hσ xs us hs
+  have hpsd := hM.coupled_nonneg
+    ((pdStep Real.sqrt A AH proxfc proxg 0 0 1 s).x - s.x)
+    ((pdStep Real.sqrt A AH proxfc proxg 0 0 1 (pdStep Real.sqrt A AH proxfc proxg 0 0 1 s)).u
+          - (pdStep Real.sqrt A AH proxfc proxg 0 0 1 s).u)
+  linarith
+
+/-- the steps stay what they were along a non-accelerated run -/
+theorem pdRunW_const_steps (A : E → F) (AH : F → E) (θ0 : ℝ) (s0 : PDState ℝ E F (StepOp E) (StepOp F)) (k : ℕ) :
+    (pdRun Real.sqrt A AH proxfc proxg 0 0 θ0 s0 k).tau = s0.tau ∧
+    (pdRun Real.sqrt A AH proxfc proxg 0 0 θ0 s0 k).sigma = s0.sigma := by
+  induction k with
+  | zero => exact ⟨rfl, rfl⟩
+  | succ k ih =>
+    have e : pdRun Real.sqrt A AH proxfc proxg 0 0 θ0 s0 (k + 1)
+        = pdStep Real.sqrt A AH proxfc proxg 0 0 θ0 (pdRun Real.sqrt A AH proxfc proxg 0 0 θ0 s0 k) := rfl
+    rw [e]
+    have := pdStepW_const_steps proxg proxfc A AH θ0 (pdRun Real.sqrt A AH proxfc proxg 0 0 θ0 s0 k)
+    exact ⟨this.1.trans ih.1, this.2.trans ih.2⟩
+
+/-- Fejér distance of the run after `k` updates to the saddle point `(x*, u*)`:
+    `D_k = D(x_k - x*, u_{k+1} - u*)` -/
+noncomputable def fejerDist (A : E → F) (AH : F → E) (s0 : PDState ℝ E F (StepOp E) (StepOp F)) (xs : E) (us : F) (k : ℕ) : ℝ :=
+  coupledW A s0.tau s0.sigma ((pdRun Real.sqrt A AH proxfc proxg 0 0 1 s0 k).x - xs)
+    ((pdRun Real.sqrt A AH proxfc proxg 0 0 1 s0 (k + 1)).u - us)
+
+/-- size of update `k+1` in the metric of the steps: `R_k = D(x_{k+1} - x_k, u_{k+2} - u_{k+1})`; it is `0` iff
+    (for a positive definite metric) the update did not move the iterate, i.e. iff the iterate is a saddle point -/
+noncomputable def fejerMove (A : E → F) (AH : F → E) (s0 : PDState ℝ E F (StepOp E) (StepOp F)) (k : ℕ) : ℝ :=
+  coupledW A s0.tau s0.sigma
+    ((pdRun Real.sqrt A AH proxfc proxg 0 0 1 s0 (k + 1)).x - (pdRun Real.sqrt A AH proxfc proxg 0 0 1 s0 k).x)
+    ((pdRun Real.sqrt A AH proxfc proxg 0 0 1 s0 (k + 2)).u - (pdRun Real.sqrt A AH proxfc proxg 0 0 1 s0 (k + 1)).u)
+
+/-- `pdhg_fejer_run_diag` — the one-step inequality along the whole run: `D_{k+1} + R_k ≤ D_k`. -/
+theorem pdhg_fejer_run_diag (A : E →ₗ[ℝ] F) (AH : F → E) (hadj : ∀ x u, ⟪A x, u⟫ = ⟪x, AH u⟫)
+    (hg : ProxOfW g proxg) (hfc : ProxOfW fc proxfc)
+    (s0 : PDState ℝ E F (StepOp E) (StepOp F)) (hτ : s0.tau.Pos) (hσ : s0.sigma.Pos) (xs : E) (us : F)
+    (hs : IsSaddle g fc A AH xs us) (k : ℕ) :
+    fejerDist proxg proxfc A AH s0 xs us (k + 1) + fejerMove proxg proxfc A AH s0 k
+      ≤ fejerDist proxg proxfc A AH s0 xs us k := by
+  have hc := pdRunW_const_steps proxg proxfc A AH 1 s0 k
+  have h := pdhg_fejer_diag g fc proxg proxfc A AH hadj hg hfc (pdRun Real.sqrt A AH proxfc proxg 0 0 1 s0 k)
+    (by rw [hc.1]; exact hτ) (by rw [hc.2]; exact hσ) xs us hs
+  rw [hc.1, hc.2] at h
+  exact h
+
+/-- `pdhg_residual_rate_partial` — constant array-valued (or scalar) positive steps with a positive semidefinite
+    metric, `θ = 1`, any saddle point `(x*, u*)`: the Fejér distances are non-negative and non-increasing, the
+    squared update sizes are summable with `D_N + Σ_{k<N} R_k ≤ D_0`, and hence among the first `N` updates there
+    is one with `R_j ≤ D_0/N`: the residual of the saddle-point inclusion (the very quantity `resid` measures) goes
+    to zero at rate `O(1/N)`.
+    PARTIAL: this is asymptotic regularity, not yet "the iterates converge to a minimiser" (which needs a
+    compactness argument — Opial — on top of it; finite dimension, strictly positive definite metric). -/
+theorem pdhg_residual_rate_partial (A : E →ₗ[ℝ] F) (AH : F → E) (hadj : ∀ x u, ⟪A x, u⟫ = ⟪x, AH u⟫)
+    (hg : ProxOfW g proxg) (hfc : ProxOfW fc proxfc)
+    (s0 : PDState ℝ E F (StepOp E) (StepOp F)) (hτ : s0.tau.Pos) (hσ : s0.sigma.Pos)
+    (hM : MetricPSD A s0.tau s0.sigma) (xs : E) (us : F) (hs : IsSaddle g fc A AH xs us) (N : ℕ) :
+    (∀ k, 0 ≤ fejerMove proxg proxfc A AH s0 k) ∧
+    (∀ k, fejerDist proxg proxfc A AH s0 xs us (k + 1) ≤ fejerDist proxg proxfc A AH s0 xs us k) ∧
+    fejerDist proxg proxfc A AH s0 xs us N + ∑ k ∈ Finset.range N, fejerMove proxg proxfc A AH s0 k
+      ≤ fejerDist proxg proxfc A AH s0 xs us 0 ∧
+    (0 < N → ∃ j, j < N ∧ fejerMove proxg proxfc A AH s0 j ≤ fejerDist proxg proxfc A AH s0 xs us 0 / N) := by
+  have hstep := pdhg_fejer_run_diag g fc proxg proxfc A AH hadj hg hfc s0 hτ hσ xs us hs
+  have hR : ∀ k, 0 ≤ fejerMove proxg proxfc A AH s0 k := fun k => hM.coupled_nonneg _ _
+  have hD : ∀ k, 0 ≤ fejerDist proxg proxfc A AH s0 xs us k := fun k => hM.coupled_nonneg _ _
+  refine ⟨hR, fun k => by linarith [hstep k, hR k], fejer_sum_le _ _ hstep N, fun hN => fejer_min_le _ _ hstep hD N hN⟩
+end diag
+
+/-- `metricPSD_pock_chambolle` — the metric condition for the array steps the harness (and Pock–Chambolle 2011,
+    Lemma 2) uses on a real matrix `M`: if `M_ij² ≤ p_ij q_ij` with `p, q ≥ 0` (`p = |M|^{2-α}`, `q = |M|^α`),
+    `τ_j Σ_i p_ij ≤ 1` and `σ_i Σ_j q_ij ≤ 1`, then `2|⟨M x, u⟩| ≤ Σ_j x_j²/τ_j + Σ_i u_i²/σ_i`. -/
+theorem metricPSD_pock_chambolle {m n : ℕ} (M : Fin m → Fin n → ℝ) (τ : Fin n → ℝ) (σ : Fin m → ℝ)
+    (hτ : ∀ j, 0 < τ j) (hσ : ∀ i, 0 < σ i)
+    (p q : Fin m → Fin n → ℝ) (hp : ∀ i j, 0 ≤ p i j) (hq : ∀ i j, 0 ≤ q i j)
+    (hpq : ∀ i j, (M i j) ^ 2 ≤ p i j * q i j)
+    (hcol : ∀ j, τ j * ∑ i, p i j ≤ 1) (hrow : ∀ i, σ i * ∑ j, q i j ≤ 1) :
+    MetricPSD (matOp M) (StepOp.diag τ) (StepOp.diag σ) :=
+  fun x u => pock_chambolle_diag M τ σ hτ hσ p q hp hq hpq hcol hrow x u
+
+/-- the rule with `α = 1`: `τ_j = 1/Σ_i |M_ij|`, `σ_i = 1/Σ_j |M_ij|` (the steps of the exact correspondence stream) -/
+theorem metricPSD_abs_sums {m n : ℕ} (M : Fin m → Fin n → ℝ) (τ : Fin n → ℝ) (σ : Fin m → ℝ)
+    (hτ : ∀ j, 0 < τ j) (hσ : ∀ i, 0 < σ i)
+    (hcol : ∀ j, τ j * ∑ i, |M i j| ≤ 1) (hrow : ∀ i, σ i * ∑ j, |M i j| ≤ 1) :
+    MetricPSD (matOp M) (StepOp.diag τ) (StepOp.diag σ) :=
+  metricPSD_pock_chambolle M τ σ hτ hσ (fun i j => |M i j|) (fun i j => |M i j|) (fun _ _ => abs_nonneg _)
+    (fun _ _ => abs_nonneg _) (fun i j => by rw [abs_mul_abs_self, sq]) hcol hrow
+
 section accel
 
 /-- `gamma_primal > 0, gamma_dual = 0`: Chambolle–Pock Alg. 2 -/
@@ -493,6 +738,29 @@ example : IsSaddle (fun _ : ℝ => (0 : ℝ)) (fun _ : ℝ => (0 : ℝ)) id id 0
 /-- a concrete accelerated run really moves: one FISTA update of `f = x²/2`, `α = 1/2`, from `x = 1` -/
 example : (gmRun Real.sqrt (id : ℝ → ℝ) none (1 / 2) true 1 1).x = 1 / 2 := by
   simp [gmRun, gmStep, gmInit, Gen.C13.gmGrad]; norm_num
+
+/-- a positive array step on `ℝ²` that is NOT a scalar: `τ = (1, 1/2)` -/
+example : (StepOp.diag ![1, 1 / 2] : StepOp (EuclideanSpace ℝ (Fin 2))).Pos :=
+  StepOp.diag_pos _ (fun i => by fin_cases i <;> simp)
+
+/-- `g = 0` with the identity as prox map, for every array step -/
+example : ProxOfW (fun _ : EuclideanSpace ℝ (Fin 2) => (0 : ℝ)) (fun _ v => v) := by
+  intro T v _ w; simp
+
+/-- hypotheses of `pdhg_fejer_diag_monotone` / `pdhg_residual_rate_partial` on a concrete 2×2 problem with genuinely
+    array-valued steps: `M = [[1, 1], [0, 2]]`, `τ = (1, 1/3)`, `σ = (1/2, 1/2)` (Pock–Chambolle, `α = 1`) -/
+example : ∃ (M : Fin 2 → Fin 2 → ℝ) (τ σ : Fin 2 → ℝ),
+    (StepOp.diag τ).Pos ∧ (StepOp.diag σ).Pos ∧ MetricPSD (matOp M) (StepOp.diag τ) (StepOp.diag σ) ∧
+    (∀ x u, ⟪matOp M x, u⟫ = ⟪x, matOp (fun j i => M i j) u⟫) ∧ τ 0 ≠ τ 1 := by
+  refine ⟨![![1, 1], ![0, 2]], ![1, 1 / 3], ![1 / 2, 1 / 2], StepOp.diag_pos _ ?_, StepOp.diag_pos _ ?_, ?_,
+    matOp_adjoint _, by norm_num⟩
+  · intro i; fin_cases i <;> simp
+  · intro i; fin_cases i <;> simp
+  · apply metricPSD_abs_sums
+    · intro i; fin_cases i <;> simp
+    · intro i; fin_cases i <;> simp
+    · intro j; fin_cases j <;> norm_num [Fin.sum_univ_two]
+    · intro i; fin_cases i <;> norm_num [Fin.sum_univ_two]
 end examples
 
 end SigpyVerif.C13
